@@ -62,7 +62,7 @@ fn packs<P: SimPrefix>(ctx: &mut Ctx, w: &mut World<P>) -> R {
             pack_c04::<P>(ctx, l, e, &t, "map")?;
         }
         if ctx.wants("C09") {
-            pack_c09_map(ctx, &cfg, &w.maps[i].real, &t)?;
+            pack_c09_map(ctx, &cfg, &mut w.maps[i].real, &t)?;
         }
         if ctx.wants("C10") {
             pack_c10_map(ctx, &cfg, &mut w.maps[i].real, &t)?;
@@ -199,8 +199,18 @@ fn run_typed<P: SimPrefix>(script: &Script, known: Arc<Vec<Finding>>) -> RunResu
             ctx.fuel = 64 * (arena as u64 + P::WIDTH as u64) * 40 + 20_000;
             let before: Vec<_> = std::mem::take(&mut w.truths);
             w.truths = before.clone();
+            let fired0 = crate::val::faults_fired();
             let out = w.exec(&mut ctx, st)?;
             let after = w.all_truths();
+            if ctx.is("C20") && crate::val::faults_fired() > fired0 {
+                // an injected callback panic unwound through the library during this step: the
+                // containers it touched must be well-formed, size-consistent and hold the model
+                for c in out.touched.iter().copied().filter(|c| *c < w.maps.len()) {
+                    let exp: Vec<crate::truth::Ent> = w.maps[c].model.iter().map(|(k, x)| crate::truth::Ent { key: *k, raw: x.0, v: x.1 }).collect();
+                    valid_after_fault(&mut ctx, &w.maps[c].real, &exp, step_kind(st))?;
+                    ctx.rare("probe.state validated after an injected panic inside a history");
+                }
+            }
             // frame condition: a step on one container leaves every other container untouched
             for c in 0..after.len() {
                 if !out.touched.contains(&c) {
